@@ -91,6 +91,7 @@ def controlled_clock():
     import pynenc.orchestrator.sqlite_orchestrator as so
     import pynenc.trigger.mem_trigger as mt
     import pynenc.trigger.sqlite_trigger as stg
+    import pynenc.trigger.base_trigger as btg
 
     class FakeDT(_dt.datetime):
         @classmethod
@@ -101,7 +102,7 @@ def controlled_clock():
         if hasattr(mod, "time"):
             saved.append((mod, "time", mod.time))
             mod.time = lambda: Clock.t
-    for mod in (st_mod, mt, stg):
+    for mod in (st_mod, mt, stg, btg):
         if hasattr(mod, "datetime"):
             saved.append((mod, "datetime", mod.datetime))
             mod.datetime = FakeDT
@@ -146,6 +147,9 @@ class World:
             app.trigger.register_condition(cond)
             self.conds[name] = cond.condition_id
         self.conds["c3"] = "never-registered-condition"
+        from pynenc.trigger.trigger_builder import TriggerBuilder
+        self.triggered = app.task(vt.noop)
+        app.trigger.register_task_triggers(self.triggered, TriggerBuilder().on_event("evt").with_logic("or"))
         self.registered = set()       # labels of invocations registered so far (the same on both sides)
         self.tainted = ""             # out-of-protocol step taken earlier in this sequence (marks later divergences)
 
@@ -261,6 +265,10 @@ def operations():
     op("cron_get", lambda r: (r.choice(["c1", "c2", "c3"]),), lambda w, a: call(lambda: w.app.trigger.get_last_cron_execution(w.conds[a[0]])))
     op("cds_store", lambda r: (r.choice(["k1", "k2"]), r.choice(["v1", "v2" * 700])), lambda w, a: call(lambda: w.app.client_data_store._store(a[0], a[1])))
     op("cds_get", lambda r: (r.choice(["k1", "k2", "k3"]),), lambda w, a: call(lambda: w.app.client_data_store._retrieve(a[0])))
+    op("emit", lambda r: (r.choice([0, 1]),), lambda w, a: call(lambda: w.app.trigger.emit_event("evt", {"x": a[0]}) and None))
+    op("valid_conditions", lambda r: (), lambda w, a: call(lambda: len(w.app.trigger.get_valid_conditions())))
+    op("trigger_iteration", lambda r: (), lambda w, a: call(lambda: (w.app.trigger.trigger_loop_iteration(),
+                                                                     w.app.orchestrator.count_invocations(w.triggered.task_id), len(w.app.trigger.get_valid_conditions()))[1:]))
     op("tick", lambda r: (r.choice([0.5, 10.0, 70.0]),), lambda w, a: ("ok", None))
     return ops_
 
